@@ -286,6 +286,10 @@ func sameRaw(got, want any) bool {
 var c15Methods = []string{"GET", "HEAD", "POST", "PUT", "PATCH", "DELETE", "OPTIONS", "FOO"}
 var c15CTypes = []string{"", "application/json", "application/json; charset=utf-8", "application/json;charset=utf-8", "application/json; charset=utf-8; boundary=x",
 	"application/x-www-form-urlencoded", "application/x-www-form-urlencoded; charset=UTF-8", "application/x-www-form-urlencoded;charset=UTF-8",
+	// parameters of any shape are ignored: unquoted URIs, bare words, empty values, repeats, quoted strings, trailing ';'
+	"application/json; charset=utf-8; profile=https://example.com/schemas/user.json", "application/json; utf-8", "application/json; charset=", "application/json;",
+	"application/json; charset=\"utf-8\"", "application/json; charset=utf-8; charset=latin1", "application/json;;", "application/json; =x",
+	"application/x-www-form-urlencoded;", // (for forms net/http itself reads the header and rejects malformed parameters: "as net/http defines it")
 	"text/plain", "multipart/form-data; boundary=x", "application/jsonx", "application/x-json", "text/json", "application/json-patch+json"}
 var c15Bodies = []string{
 	`{"name":"J-name","tags":["J1","J2"],"opt":"J-opt","list":["JL"]}`, `{"name":"J-name","tags":"J1"}`, `{}`, `{"name":null,"tags":[]}`,
@@ -328,6 +332,9 @@ func TestC15(t *testing.T) {
 	jfrag := []string{"{", "}", `"name"`, `"tags"`, ":", ",", `"J"`, "[", "]", "null", "1", " ", `"opt"`, `"list"`}
 	hh.Sub(h, "random-requests", h.N(15000, 100000), func(rt *rapid.T) c15Case {
 		c := c15Case{Method: rapid.SampledFrom(c15Methods).Draw(rt, "m"), CType: rapid.SampledFrom(c15CTypes).Draw(rt, "ct"), Ptr: rapid.IntRange(0, 3).Draw(rt, "ptr") == 0}
+		if c.CType == "application/json" && rapid.IntRange(0, 1).Draw(rt, "param") == 0 {
+			c.CType += ";" + strings.Join(rapid.SliceOfN(rapid.SampledFrom([]string{" ", "charset", "=", "utf-8", ";", "\"", "q", "/", ":", "x", ",", "*"}), 0, 6).Draw(rt, "pf"), "")
+		}
 		if rapid.Bool().Draw(rt, "jsonbody") {
 			if rapid.Bool().Draw(rt, "fixed") {
 				c.Body = rapid.SampledFrom(c15Bodies).Draw(rt, "b")
